@@ -75,8 +75,14 @@ class Units(object):
         self.lb = MASS['lb'] if lb is None else lb
         self.spell = spell or {}
 
-    # SI -> user
+    # SI -> user. Centimetres and millimetres are written the way a user
+    # would (0.35 m -> 35.0 cm, not 35.00000000000001): multiply by the
+    # exact integer factor; inches and feet have no exact decimal form.
     def L(self, x):
+        if self.length == 'cm':
+            return x * 100.0
+        if self.length == 'mm':
+            return x * 1000.0
         return x / LENGTH[self.length]
 
     def T(self, k):
